@@ -271,6 +271,7 @@ void htp_verif_site(int site, const void *connp, long a, long b);
 #define HTP_VERIF_SITE_RES_HDR_LFCR                   1
 #define HTP_VERIF_SITE_RES_COMPLETE_EARLY_DATA_OTHER  2
 #define HTP_VERIF_SITE_DECOMP_RESTART                 3
+#define HTP_VERIF_SITE_RES_LINE_AS_BODY               4
 #endif
 
 #endif	/* _HTP_PRIVATE_H */
